@@ -61,6 +61,16 @@ theorem C04_gmx_v2_nonfinite_deposit_rejected (o : GmxV2.Ops α) (cx : NumCtx) (
     rcases h with h | h <;> simp [h]
   rw [if_pos this]
 
+/-- v2 (035b95e): finite, non-negative amounts whose pricing leaves the double range (the minted amount comes out as `inf` /
+    `nan`) are rejected with `DemeterError` before the wallet is touched, in either wallet mode -/
+theorem C04_gmx_v2_nonfinite_mint_rejected (o : GmxV2.Ops α) (cx : NumCtx) (cfg : GmxV2.Config α) (ps : GmxV2.Pool α) (lk sk : String)
+    (s : GmxV2.State α) (la sa : α) (allowNeg : Bool) (r : GmxV2.LPResult α) (tag : String)
+    (hfin : (o.isFinite la && o.isFinite sa) = true) (hneg : ¬ (la < 0 ∨ sa < 0))
+    (hm : GmxV2.mintAmount o cfg ps la sa = .ok (r, tag)) (hr : o.isFinite r.gmAmount = false) :
+    GmxV2.deposit o cx cfg ps lk sk s la sa allowNeg = (.error .demeter, s) := by
+  unfold GmxV2.deposit
+  simp only [hfin, Bool.not_true, Bool.false_eq_true, if_false, hneg, hm, hr, Bool.not_false, if_true]
+
 theorem C04_gmx_v2_nonfinite_withdraw_rejected (o : GmxV2.Ops α) (cx : NumCtx) (cfg : GmxV2.Config α) (ps : GmxV2.Pool α) (lk sk : String)
     (s : GmxV2.State α) (amt : Option α) (h : o.isFinite (amt.getD s.amount) = false) :
     GmxV2.withdraw o cx cfg ps lk sk s amt = (.error .demeter, s) := by
